@@ -48,7 +48,9 @@ def _make_per_example_loss(noise):
   import jax.numpy as jnp
 
   def pel(params, batch, rng):
-    w = params['w']
+    # params is {'w': f32[2]} or the two-leaf form {'z1': f32[1], 'a0': f32[1]} (inserted z1 first, flattened by jax
+    # in sorted-key order a0, z1): the canonical coordinate order is (z1, a0)
+    w = params['w'] if 'w' in params else jnp.concatenate([params['z1'], params['a0']])
     r = batch['x'] @ w - batch['y']
     loss = 0.5 * r * r
     if noise:
@@ -67,6 +69,14 @@ def gen_population(rng, sizes, scale=2):
   return pop
 
 
+def scaled(data, e):
+  """Features and targets multiplied by 2**e (exact); e = 0: unchanged."""
+  if not e:
+    return data
+  f = 2.0 ** e
+  return {'x': [[v * f for v in row] for row in data['x']], 'y': [v * f for v in data['y']]}
+
+
 def client_dataset(data, xdtype='float32'):
   """xdtype float16: the dyadic data are exact in it; the loss promotes to float32."""
   import fedjax
@@ -82,12 +92,21 @@ def cid_bytes(cid):
 
 
 def cid_form(cid, form='bytes'):
-  """Client ids as bytes (fedjax's own), str, or int (client id 0 is falsy but valid)."""
+  """Client ids as bytes (fedjax's own), str, int (client id 0 is falsy but valid), negative ints (-1 looks like a
+  sentinel), or ints with client 0 spelled None (the pmap backend uses None for its padding clients)."""
+  if form == 'negint':
+    return -1 - int(cid)
+  if form == 'none0':
+    return None if int(cid) == 0 else int(cid)
   return cid_bytes(cid) if form == 'bytes' else ('c%03d' % int(cid)) if form == 'str' else int(cid)
 
 
 def cid_back(k):
   """Canonical 'cNNN' spelling of a client id in any of the three forms."""
+  if k is None:
+    return 'c000'
+  if isinstance(k, (int, np.integer)) and int(k) < 0:
+    return 'c%03d' % (-1 - int(k))
   return k.decode() if isinstance(k, bytes) else k if isinstance(k, str) else 'c%03d' % int(k)
 
 
@@ -97,18 +116,21 @@ def make_key(seed, form='jax'):
   return np.asarray(k) if form == 'numpy' else k
 
 
-def make_params(values, form='jax'):
+def make_params(values, form='jax', leaves=1):
   import jax.numpy as jnp
-  return {'w': np.asarray(values, dtype=np.float32) if form == 'numpy' else jnp.asarray(values, dtype=jnp.float32)}
+  mk = (lambda v: np.asarray(v, dtype=np.float32)) if form == 'numpy' else (lambda v: jnp.asarray(v, dtype=jnp.float32))
+  if leaves == 2:
+    return {'z1': mk(values[:1]), 'a0': mk(values[1:])}      # insertion order is not the sorted key order
+  return {'w': mk(values)}
 
 
-FORMS0 = {'clients': 'list', 'ids': 'bytes', 'init': 'jax', 'key': 'jax'}
+FORMS0 = {'clients': 'list', 'ids': 'bytes', 'init': 'jax', 'key': 'jax', 'leaves': 1}
 
 
 def gen_forms(rng):
   """Item 1 of WAVE3: delivery forms of the arguments of apply / init."""
-  return {'clients': rng.choice(['list', 'tuple']), 'ids': rng.choice(['bytes', 'str', 'int']),
-          'init': rng.choice(['jax', 'numpy']), 'key': rng.choice(['jax', 'numpy'])}
+  return {'clients': rng.choice(['list', 'tuple']), 'ids': rng.choice(['bytes', 'str', 'int', 'negint', 'none0']),
+          'init': rng.choice(['jax', 'numpy']), 'key': rng.choice(['jax', 'numpy']), 'leaves': rng.choice([1, 1, 2])}
 
 
 class CallerData:
@@ -216,6 +238,9 @@ def make_optimizer(cfg):
     return fedjax.optimizers.sgd(cfg['lr'], momentum=cfg.get('mom'), nesterov=bool(cfg.get('nest', False)))
   if cfg['kind'] == 'adam':
     return fedjax.optimizers.adam(cfg['lr'], eps=cfg.get('eps', 1e-8))
+  if cfg['kind'] == 'clipsgd':      # several chained optax transforms: elementwise clip, then sgd
+    import optax
+    return fedjax.optimizers.create_optimizer_from_optax(optax.chain(optax.clip(cfg['clip']), optax.sgd(cfg['lr'])))
   raise ValueError(cfg['kind'])
 
 
@@ -236,7 +261,13 @@ class Recorder:
 
 
 def flat(params):
+  if 'w' not in params:
+    return [float(v) for k in ('z1', 'a0') for v in np.asarray(params[k], dtype=np.float64).reshape(-1)]
   return [float(v) for v in np.asarray(params['w'], dtype=np.float64).reshape(-1)]
+
+
+def first_leaf(params):
+  return params['w'] if 'w' in params else params['z1']
 
 
 def trace_of(opt_state):
@@ -268,6 +299,8 @@ class RefOpt:
       self.t = g + m * self.t
       u = g + m * self.t if c.get('nest') else self.t
       return p - c['lr'] * u
+    if c['kind'] == 'clipsgd':
+      return p - c['lr'] * np.clip(g, -c['clip'], c['clip'])
     if c['kind'] == 'adam':
       b1, b2, eps = 0.9, 0.999, c.get('eps', 1e-8)
       self.count += 1
@@ -347,3 +380,72 @@ def err_name(ex):
 def maxabs(a):
   a = np.asarray(a, dtype=np.float64).reshape(-1)
   return float(np.max(np.abs(a))) if a.size else 0.0
+
+
+# ----------------------------------------------------------------------------
+# worker subprocesses (other device counts, global jax configuration flags)
+
+WORKER_ENVS = {
+    'pmap3': {'XLA_FLAGS': '--xla_force_host_platform_device_count=3'},
+    'rbg': {'JAX_DEFAULT_PRNG_IMPL': 'rbg'},
+    'tfp0': {'JAX_THREEFRY_PARTITIONABLE': '0'},
+    'tfp1': {'JAX_THREEFRY_PARTITIONABLE': '1'},
+    'x64': {'JAX_ENABLE_X64': '1'},
+    'rankraise': {'JAX_NUMPY_RANK_PROMOTION': 'raise'},
+}
+_WORKERS = {}
+
+
+def kill_workers():
+  for tag in list(_WORKERS):
+    p = _WORKERS.pop(tag)[0]
+    if p.poll() is None:
+      p.kill()
+
+
+def worker_main(run_local):
+  """One JSON case per line in, one JSON observation per line out; the first line reports the process' jax set-up."""
+  import json
+  import sys
+  import jax
+  out = sys.stdout
+  sys.stdout = sys.stderr
+  out.write(json.dumps({'devices': len(jax.devices()), 'x64': bool(jax.config.jax_enable_x64),
+                        'prng': str(jax.config.jax_default_prng_impl)}) + '\n')
+  out.flush()
+  for line in sys.stdin:
+    try:
+      obs = run_local(json.loads(line))
+    except Exception as ex:
+      obs = {'worker_error': err_name(ex)}
+    out.write(json.dumps(obs) + '\n')
+    out.flush()
+
+
+def run_in_worker(module, tag, case):
+  """Runs `harness.<module>.run_local(case)` in a persistent subprocess started with WORKER_ENVS[tag]."""
+  import atexit
+  import json
+  import os
+  import subprocess
+  import sys
+  if tag not in _WORKERS or _WORKERS[tag][0].poll() is not None:
+    env = dict(os.environ)
+    for k, v in WORKER_ENVS[tag].items():
+      env[k] = (env.get(k, '') + ' ' + v).strip() if k == 'XLA_FLAGS' else v
+    p = subprocess.Popen([sys.executable, '-c', f'from harness import {module} as m; from lib import fedsim; fedsim.worker_main(m.run_local)'],
+                         stdin=subprocess.PIPE, stdout=subprocess.PIPE, stderr=subprocess.DEVNULL, env=env, text=True, bufsize=1)
+    if not _WORKERS:
+      atexit.register(kill_workers)
+    _WORKERS[tag] = (p, json.loads(p.stdout.readline()))
+  p, info = _WORKERS[tag]
+  try:
+    p.stdin.write(json.dumps(case) + '\n')
+    p.stdin.flush()
+    obs = json.loads(p.stdout.readline())
+  except BaseException:
+    p.kill()
+    _WORKERS.pop(tag, None)
+    raise
+  obs['worker'] = info
+  return obs
